@@ -1,0 +1,79 @@
+//go:build verif
+
+package req
+
+import "go.nanomsg.org/mangos/v3/protocol"
+
+// Read-only projection of the REQ socket state for the conformance harness
+// in /verif (build tag "verif").
+
+// VerifCtx is the projected state of one context.
+type VerifCtx struct {
+	ReqID    uint32
+	HasReq   bool
+	HasSend  bool
+	HasRep   bool
+	Queued   bool
+	RecvWait bool
+	Closed   bool
+	LastPipe uint32 // 0 if none
+}
+
+// VerifSnap is the projected state of the socket.
+type VerifSnap struct {
+	Closed bool
+	NextID uint32
+	IDs    []uint32 // keys of ctxByID
+	IDCtx  []int    // index (in the ctxs argument) of the owner of each key, -1 if unknown
+	SendQ  []int    // indices into ctxs, -1 if unknown
+	ReadyQ []uint32 // pipe ids
+	Pipes  []uint32
+	Ctxs   []VerifCtx
+}
+
+// VerifSnapshot projects the state of p (created by NewProtocol) and of the
+// given contexts (nil stands for the default context).
+func VerifSnapshot(p protocol.Protocol, ctxs []protocol.Context) VerifSnap {
+	s := p.(*socket)
+	s.Lock()
+	defer s.Unlock()
+	cs := make([]*context, len(ctxs))
+	for i, c := range ctxs {
+		if c == nil {
+			cs[i] = s.defCtx
+		} else {
+			cs[i] = c.(*context)
+		}
+	}
+	idx := func(c *context) int {
+		for i, x := range cs {
+			if x == c {
+				return i
+			}
+		}
+		return -1
+	}
+	sn := VerifSnap{Closed: s.closed, NextID: s.nextID}
+	for id, c := range s.ctxByID {
+		sn.IDs = append(sn.IDs, id)
+		sn.IDCtx = append(sn.IDCtx, idx(c))
+	}
+	for _, c := range s.sendQ {
+		sn.SendQ = append(sn.SendQ, idx(c))
+	}
+	for _, p := range s.readyQ {
+		sn.ReadyQ = append(sn.ReadyQ, p.p.ID())
+	}
+	for id := range s.pipes {
+		sn.Pipes = append(sn.Pipes, id)
+	}
+	for _, c := range cs {
+		v := VerifCtx{ReqID: c.reqID, HasReq: c.reqMsg != nil, HasSend: c.sendMsg != nil,
+			HasRep: c.repMsg != nil, Queued: c.queued, RecvWait: c.receiveWait, Closed: c.closed}
+		if c.lastPipe != nil {
+			v.LastPipe = c.lastPipe.p.ID()
+		}
+		sn.Ctxs = append(sn.Ctxs, v)
+	}
+	return sn
+}
